@@ -137,7 +137,12 @@ def parseDowngradeTarget (m : LMap) (rows : List Id) (target : String) :
     let r ← getRevision m sym
     pure (if b.isEmpty then none else some b, r)
 
-/-! ## `_topological_sort` -/
+/-! ## `_topological_sort`
+
+The loop is written once, generically in the three things it reads from the revision map:
+`nd` (`_normalized_down_revisions`), `ancOf` (`get_ancestors`: the ancestor set of one
+revision, itself included) and `simple` (the test `not _normalized_resolved_dependencies and
+len(_versioned_down_revisions) == 1` that licenses the in-place `discard`). -/
 
 structure TopoState where
   todo : List Id
@@ -153,46 +158,42 @@ def findBlocking (cand : Id) (idx : Nat) : Nat → List (List Id) → Option Nat
   | _, [] => none
   | j, a :: rest => if j != idx && cand ∈ a then some j else findBlocking cand idx (j + 1) rest
 
-def eraseIdxL {α} : List α → Nat → List α
-  | [], _ => []
-  | _ :: r, 0 => r
-  | x :: r, n + 1 => x :: eraseIdxL r n
-
-def setIdxL {α} : List α → Nat → α → List α
-  | [], _, _ => []
-  | _ :: r, 0, v => v :: r
-  | x :: r, n + 1, v => x :: setIdxL r n v
-
-def topoStep (m : LMap) (s : TopoState) : TopoState :=
+def topoStepG (nd : Id → List Id) (ancOf : Id → List Id) (simple : Id → Bool) (s : TopoState) : TopoState :=
   match s.heads[s.idx]? with
   | none => s   -- unreachable: `idx` always indexes `heads`
   | some cand =>
     match findBlocking cand s.idx 0 s.ancs with
     | some j => { s with idx := j }
     | none =>
-      let (todo', out') := if cand ∈ s.todo then (s.todo.filter (· != cand), s.output ++ [cand]) else (s.todo, s.output)
-      let r := (m.get? cand).getD default
-      let toAdd := r.normDown.filter (fun x => x ∈ todo' && x ∉ s.heads)
+      let todo' := if cand ∈ s.todo then s.todo.filter (· != cand) else s.todo
+      let out' := if cand ∈ s.todo then s.output ++ [cand] else s.output
+      let toAdd := (nd cand).filter (fun x => x ∈ todo' && x ∉ s.heads)
       match toAdd with
       | [] =>
-        { todo := todo', output := out', heads := eraseIdxL s.heads s.idx, ancs := eraseIdxL s.ancs s.idx,
+        { todo := todo', output := out', heads := s.heads.eraseIdx s.idx, ancs := s.ancs.eraseIdx s.idx,
           idx := s.idx - 1 }
       | h0 :: rest =>
-        if r.ndeps.isEmpty && r.down.length == 1 then
-          { todo := todo', output := out', heads := setIdxL s.heads s.idx h0,
-            ancs := setIdxL s.ancs s.idx (((s.ancs[s.idx]?).getD []).filter (· != cand)), idx := s.idx }
+        if simple cand then
+          { todo := todo', output := out', heads := s.heads.set s.idx h0,
+            ancs := s.ancs.set s.idx (((s.ancs[s.idx]?).getD []).filter (· != cand)), idx := s.idx }
         else
-          { todo := todo', output := out', heads := setIdxL s.heads s.idx h0 ++ rest,
-            ancs := setIdxL s.ancs s.idx (m.ancestors [h0]) ++ rest.map (fun x => m.ancestors [x]),
+          { todo := todo', output := out', heads := s.heads.set s.idx h0 ++ rest,
+            ancs := s.ancs.set s.idx (ancOf h0) ++ rest.map ancOf,
             idx := s.idx }
 
-def topoLoop (m : LMap) : Nat → TopoState → Except Err (List Id)
+def topoLoopG (nd : Id → List Id) (ancOf : Id → List Id) (simple : Id → Bool) : Nat → TopoState → Except Err (List Id)
   | 0, _ => .error .outOfFuel
   | fuel + 1, s =>
     if s.heads.isEmpty then (if s.todo.isEmpty then .ok s.output else .error .assertion)
-    else topoLoop m fuel (topoStep m s)
+    else topoLoopG nd ancOf simple fuel (topoStepG nd ancOf simple s)
 
-def topoFuel (m : LMap) : Nat := (m.revs.length + 2) * (m.revs.length + 2)
+/-- fuel: every iteration either emits a revision or moves to a head of strictly higher rank -/
+def topoFuel (todo : List Id) : Nat := (todo.length + 2) * (todo.length + 2)
+
+def simpleRev (m : LMap) (c : Id) : Bool :=
+  match m.get? c with
+  | none => false
+  | some r => r.ndeps.isEmpty && r.down.length == 1
 
 /-- position in `list(self._revision_map)` -/
 def mapIndex (m : LMap) (i : Id) : Nat := (m.ids.findIdx? (· == i)).getD m.ids.length
@@ -203,10 +204,14 @@ def insertSorted (m : LMap) (x : Id) : List Id → List Id
 
 def sortByMap (m : LMap) (l : List Id) : List Id := l.foldr (insertSorted m) []
 
-def topoSort (m : LMap) (revisions : List Id) (heads : List Id) : Except Err (List Id) :=
+def topoInit (m : LMap) (revisions heads : List Id) : TopoState :=
   let todo := dedupe revisions
   let hs := sortByMap m (dedupe (heads.filter (· ∈ todo)))
-  topoLoop m (topoFuel m) { todo := todo, heads := hs, ancs := hs.map (fun x => m.ancestors [x]), idx := 0, output := [] }
+  { todo := todo, heads := hs, ancs := hs.map (fun x => m.ancestors [x]), idx := 0, output := [] }
+
+def topoSort (m : LMap) (revisions : List Id) (heads : List Id) : Except Err (List Id) :=
+  let s := topoInit m revisions heads
+  topoLoopG m.normDownOf (fun x => m.ancestors [x]) (simpleRev m) (topoFuel s.todo) s
 
 /-! ## collecting -/
 
